@@ -14,14 +14,15 @@ EVENT = "transactron/evlog/event.py"
 def from_raw_typed(ctx, pid="C33"):
     ctx.use(EVENT)
     fn = Fn(ctx.repo, EVENT, "Event.from_raw", pid)
-    dyn, sta = fn.param(1), fn.param(2)
+    CLS, dyn, sta = fn.param(0), fn.param(1), fn.param(2)
     seen = {}
     for ex in fn.exs:
         rets = [r for r in ex.of(Return) if r.callid is None]
         kw = None
         for r in rets:
-            m = pmatch("cls(**Q_k)", r.value)
-            kw = m["k"] if m else None
+            v = r.value
+            if v[0] == "call" and not v[2] and len(v[3]) == 1 and v[3][0][0] is None and tstr(v[1]) == "cls":
+                kw = v[3][0][1]
         ctx.check(kw is not None, f"{pid}.from-raw", fn.site, "Event.from_raw.result", found="; ".join(tstr(r.value) for r in rets), required="returns cls(**kwargs)")
         if kw is None:
             continue
@@ -32,11 +33,11 @@ def from_raw_typed(ctx, pid="C33"):
             if len(lp) != 1:
                 continue
             name = lp[0][0][0]
-            kind = "dynamic" if lp[0][1] == pat("cls._dynamic_fields") else ("static" if lp[0][1] == pat("cls._static_fields") else None)
+            kind = "dynamic" if lp[0][1] == ("a", CLS, "_dynamic_fields") else ("static" if lp[0][1] == ("a", CLS, "_static_fields") else None)
             if kind is None:
                 continue
             raw = dyn if kind == "dynamic" else sta
-            want = ("call", ("n", "_convert_field"), (("i", pat("cls._field_types"), name), ("i", raw, name)), ())
+            want = ("call", ("n", "_convert_field"), (("i", ("a", CLS, "_field_types"), name), ("i", raw, name)), ())
             seen[kind] = True
             ctx.check(s.target[2] == name and s.value == want, f"{pid}.from-raw", s.site, f"Event.from_raw.{kind}", found=f"{tstr(s.target)} <- {tstr(s.value)}",
                       required=f"every {kind} field: kwargs[name] = _convert_field(declared type of name, {'dynamics' if kind == 'dynamic' else 'statics'}[name])")
